@@ -274,7 +274,9 @@ pub fn execute(plan: &Plan) -> Outcome {
     };
 
     'outer: loop {
-        if Instant::now() > deadline { out.machinery.push(format!("execution did not finish in 20 s (iteration {}, events {:?})", iteration, events.lock().unwrap())); break; }
+        // a healthy execution takes some tens of milliseconds; one that is still running after 20 s with a cooperating broker and
+        // transport is stuck (believed only if it reproduces, like every other problem)
+        if Instant::now() > deadline { let ev = events.lock().unwrap().clone(); out.problem("client-stops-making-progress", format!("execution did not finish in 20 s of real time (loop pass {}, events {:?})", iteration, ev)); break; }
         // where is the loop?
         let phase = { gate.inner.lock().unwrap().phase };
         let generation_calls = gate.inner.lock().unwrap().connections;
@@ -359,7 +361,7 @@ pub fn execute(plan: &Plan) -> Outcome {
                 iteration += 1;
                 // wait for the iteration to end: blocked in the next read, or transport dropped
                 let ok = wait_until(|| { let g = gate.inner.lock().unwrap(); !g.go && (g.phase == Phase::InRead || g.phase == Phase::Dropped) }, Duration::from_secs(10));
-                if !ok { out.machinery.push(format!("loop iteration {} did not finish within 10 s", iteration)); break 'outer; }
+                if !ok { let ev = events.lock().unwrap().clone(); out.problem("client-stops-making-progress", format!("loop pass {} did not come back to read() within 10 s of real time although the transport answers every call at once; events {:?}", iteration, ev)); break 'outer; }
             }
             Phase::Dropped | Phase::Running => {
                 if phase == Phase::Dropped && connection_open {
